@@ -244,6 +244,8 @@ def r5(ctx):
                   'the configured stability threshold reaches the unstable blocks without an `as` conversion',
                   'the requested stability threshold is converted with `as` (%s): a value above the target type\'s range is silently truncated '
                   '(2^32 + 2 becomes 2), so anchors advance with far less work behind them than configured' % show(a)[:120])
+    from rules import atoms
+    atoms.depth_atoms(ctx, 'R5')
     nt = ctx.fn('R5', GUB + '::normalized_stability_threshold')
     if nt:
         r = ex(prog, nt).local(0)
